@@ -275,6 +275,25 @@ func (*Ufs) FidDestroy(sfid *SrvFid) {
 	}
 }
 
+// within reports whether the cleaned path p is the exported root or lies
+// below it.
+func (ufs *Ufs) within(p string) bool {
+	root := filepath.Clean(ufs.Root)
+	p = filepath.Clean(p)
+	if root == "/" || p == root {
+		return true
+	}
+
+	return strings.HasPrefix(p, root+"/")
+}
+
+// badName reports whether a name supplied by a client for a single
+// directory entry (walk element, create name) is not one: empty, '.',
+// '..' or containing a '/'.
+func badName(name string) bool {
+	return name == "" || name == "." || name == ".." || strings.Contains(name, "/")
+}
+
 func (ufs *Ufs) Attach(req *SrvReq) {
 	if req.Afid != nil {
 		req.RespondError(Enoauth)
@@ -287,6 +306,11 @@ func (ufs *Ufs) Attach(req *SrvReq) {
 	// clients attach are not allowed to go outside the
 	// directory represented by ufs.Root
 	fid.path = filepath.Join(ufs.Root, tc.Aname)
+	if !ufs.within(fid.path) {
+		/* the attach name must not lead out of the exported tree */
+		req.RespondError(Enoent)
+		return
+	}
 
 	req.Fid.Aux = fid
 	err := fid.stat()
@@ -319,8 +343,24 @@ func (*Ufs) Walk(req *SrvReq) {
 	wqids := make([]Qid, len(tc.Wname))
 	path := fid.path
 	i := 0
+	ufs, _ := (req.Conn.Srv.ops).(*Ufs)
 	for ; i < len(tc.Wname); i++ {
+		if tc.Wname[i] != ".." && tc.Wname[i] != "." && badName(tc.Wname[i]) {
+			/* not a single path element: nothing has that name */
+			if i == 0 {
+				req.RespondError(Enoent)
+				return
+			}
+
+			break
+		}
+
 		p := path + "/" + tc.Wname[i]
+		if tc.Wname[i] == ".." && ufs != nil && !ufs.within(p) {
+			/* '..' at the root of the exported tree is the root */
+			p = path
+		}
+
 		st, err := os.Lstat(p)
 		if err != nil {
 			if i == 0 {
@@ -370,6 +410,11 @@ func (*Ufs) Create(req *SrvReq) {
 	err := fid.stat()
 	if err != nil {
 		req.RespondError(err)
+		return
+	}
+
+	if badName(tc.Name) {
+		req.RespondError(&Error{"bad file name", EINVAL})
 		return
 	}
 
@@ -680,6 +725,12 @@ func (u *Ufs) Wstat(req *SrvReq) {
 			destpath = filepath.Join(fiddir, dir.Name)
 			fmt.Printf("rel  results in %s\n", destpath)
 		}
+		if !u.within(destpath) || filepath.Clean(destpath) == filepath.Clean(u.Root) {
+			/* a rename cannot move the file out of the exported tree */
+			req.RespondError(Eperm)
+			return
+		}
+
 		err := syscall.Rename(fid.path, destpath)
 		fmt.Printf("rename %s to %s gets %v\n", fid.path, destpath, err)
 		if err != nil {
